@@ -59,7 +59,7 @@ func (t *tailReader) Read(p []byte) (int, error) {
 }
 
 var headerLines = []string{
-	"WARC-Type: response", "warc-type:request", "Content-Length: 12", "content-length : 7 ", "X-Custom: a: b",
+	"P: 100% a%20b %s %d", "T: text/plain; \r\n charset=utf-8", "U: a\t\r\n\tb \r\n c", "V: x \n y", "WARC-Type: response", "warc-type:request", "Content-Length: 12", "content-length : 7 ", "X-Custom: a: b",
 	"WARC-Date: 2020-01-02T03:04:05Z", "WARC-Record-ID: <urn:uuid:1>", "NoColonHere", ": emptyname", "Name:",
 	"  leading: space", "folded: first", " continued", "\tcontinued tab", "x:y\rz", "caf\xc3\xa9: \xe2\x82\xac",
 	"A: =?utf-8?q?x?=", "B: =?utf-8?q?x=0D=0AEvil:_1?=", "C: =?utf-8?q?=3D=3Futf-8=3Fq=3Fy=3F=3D?=", "D: =?bogus?x?y?=",
@@ -71,7 +71,11 @@ func genHeaderSection(r *rand.Rand) []byte {
 	var sb strings.Builder
 	n := 1 + r.Intn(5)
 	for i := 0; i < n; i++ {
-		sb.WriteString(pick(r, headerLines))
+		if r.Intn(400) == 0 {
+			sb.WriteString("L: " + longValue(r)) // longer than a bufio buffer
+		} else {
+			sb.WriteString(pick(r, headerLines))
+		}
 		if i == n-1 && r.Intn(6) == 0 {
 			break // no line end at all
 		}
@@ -218,7 +222,7 @@ func runHparse(toks []string) (string, string) {
 
 // ---- API-built field sets ----
 var tokenNames = []string{"x-foo", "X-Bar-Baz", "a", "name1", "WARC-Type", "warc-date", "Content-Length", "x_y.z", "9lives", "WARC-Concurrent-To"}
-var apiValues = []string{"v", "value with spaces", "a: b", "x:y", "<urn:uuid:1>", "12", "", "\tlead", "trail ", " both ", "caf\xc3\xa9", "\xc2\xa0nbsp\xc2\xa0",
+var apiValues = []string{"a%20b", "100%", "%s %d", "v", "value with spaces", "a: b", "x:y", "<urn:uuid:1>", "12", "", "\tlead", "trail ", " both ", "caf\xc3\xa9", "\xc2\xa0nbsp\xc2\xa0",
 	"\xe3\x80\x80ideographic", "a\x0bb", "\x0cformfeed", "=?utf-8?q?x?=", "semi;colon", "tab\tinside", "\x00nul", "\x85next", "v\xe2\x80\x80"}
 
 func genHapi(r *rand.Rand, n int, tier string, out *bufio.Writer) {
@@ -230,6 +234,9 @@ func genHapi(r *rand.Rand, n int, tier string, out *bufio.Writer) {
 			v := pick(r, apiValues)
 			if r.Intn(5) == 0 {
 				v = genValue(r)
+			}
+			if r.Intn(300) == 0 {
+				v = longValue(r)
 			}
 			fmt.Fprintf(&sb, " %s %s", hxs(randCase(r, pick(r, tokenNames))), hxs(v))
 		}
